@@ -250,7 +250,8 @@ def slow_choice_games(tier="quick"):
     (quick) and up to about 4 x 10^5 sweeps (thorough)."""
     tier = __import__("os").environ.get("VERIF_TIER_EFFECTIVE", tier)
     combos = [(1 / 256, 10.0, P1, False, True), (1 / 256, 0.05, P2, True, False),
-              (1 / 2048, 10.0, P1, True, False), (1 / 2048, 0.05, P1, False, True), (1 / 2048, 10.0, P2, False, False)]
+              (1 / 2048, 10.0, P1, True, False), (1 / 2048, 0.05, P1, False, True), (1 / 2048, 10.0, P2, False, False),
+              (1 / 8192, 10.0, P1, False, False)]      # the last one needs about 1.9 x 10^5 sweeps
     if tier != "quick":
         for eps in (1 / 256, 1 / 2048, 5e-4):
             for delta in (10.0, 0.05):
